@@ -78,12 +78,14 @@ reader:
 			if err != nil {
 				return err
 			}
-			return ErrorCode(r.writer, newErrClientCopyFailed(desc))
+			// NOTE: the error is reported to the client once it is returned by
+			// the statement, writing it here would report the abort twice.
+			return newErrClientCopyFailed(desc)
 		default:
 			// Receipt of any other non-copy message type constitutes an error that
 			// will abort the copy-in state as described above.
 			// https://www.postgresql.org/docs/current/protocol-flow.html#PROTOCOL-COPY
-			return ErrorCode(r.writer, NewErrUnimplementedMessageType(typed))
+			return NewErrUnimplementedMessageType(typed)
 		}
 	}
 }
